@@ -40,6 +40,10 @@ func c17(c *Ctx) {
 	sCommitCoversConfig(c, "R9/S-COMMITCFG")
 	sLockDiscipline(c, "R10/S-LOCK", "verifyFuture", "followerReplication")
 	sAsyncNotifyBuffered(c, "R8/S-ASYNC")
+	// round 7: a verify future parked with nobody to answer it; a batch whose
+	// futures are skipped by an early return
+	c09R2Verify(c, "R11/C09.R2")
+	c08R5(c, "R11/C08.R5")
 }
 
 func loopSelect(c *Ctx, fn *ssa.Function) *ssa.Select {
